@@ -1,4 +1,5 @@
 """C03 — totality, restricted to lexer kernels and diagnostic rendering arithmetic (E2 + E1)."""
+import os
 import z3
 
 import common
@@ -127,4 +128,17 @@ def run(run):
                     rp_w, ["Position::get_width"])
     except Unsupported as e:
         run.ob("get-width", "E2", "get_width encodable").inconclusive(str(e))
+    try:
+        import lexstep
+        lexstep.obligations(run, mir, rp, C18.lexstep_replay(rp), want=("panic",))
+    except Unsupported as e:
+        run.ob("lexer-step-no-panic", "E2", "into_tokens encodable").inconclusive(str(e))
+    if os.environ.get("VERIF_NO_KANI") != "1":
+        import e1
+        names = list(e1.QUICK_B) + ["step_other_char"]
+        if run.tier == "thorough":
+            fam = e1.kani_runner.FAMILIES
+            names = fam["step2"] + fam["step3"] + fam["step_other"] + fam["state"]
+        e1.run(run, names, lambda n: "panic freedom and progress of one real lexer step / State method (Kani: every reachable "
+               "unwrap, overflow, index or slice panic is a failed check)", C18.kani_step_replay(rp), only_panics=True)
     rp.close()
